@@ -6,7 +6,7 @@ ROOT = os.path.dirname(os.path.dirname(os.path.abspath(__file__)))
 
 CHECKS = {
     'C20': dict(
-        text='Exhaustive: the lattice laws are TLC invariants over all pairs (quick) / triples (thorough) of the 128 type sets, and every one of the 128x128 pairs is driven through the real DataType.cast/can_be/union and validated against HplTypes by the trace spec, which also proves the driven set is the whole product.',
+        text='Exhaustive: the lattice laws are TLC invariants over all pairs (quick) / triples (thorough) of the 128 type sets, and every one of the 128x128 pairs is driven through the real DataType.cast/can_be/union and validated against HplTypes by the trace spec, which also proves the driven set is the whole product. The thorough tier additionally has TLAPS prove the laws for type sets over any set of base types (HplTypesLaws.tla, 10 obligations).',
         note='Trusts TLC, the Json module and the bit-level projection of DataType values; union is checked on all pairs and sampled triples/0-ary/4-ary.',
         technique='TLC model checking of HplTypes (MC_Types) + exhaustive trace validation (T_C20)',
         design='5/C20'),
